@@ -634,6 +634,7 @@ def run(ctx):
     # `==` of binnings compares the edge arrays; no schema substitutes a comparison of its own parameters
     eqs = [c.name for c in m.subclasses(BB) if "__eq__" in c.methods]
     beq = BB.methods["__eq__"]
+    ctx.saw(beq)
     cmp_rets = [U(n.value) for n in ast.walk(beq.node) if isinstance(n, ast.Return) and isinstance(n.value, ast.Call)]
     okeq = bool(cmp_rets) and all(r in ("np.array_equal(self.bins, other.bins)", "np.array_equal(self.numpy_bins, other.numpy_bins)",
                                         "np.array_equal(other.bins, self.bins)", "np.array_equal(other.numpy_bins, self.numpy_bins)") for r in cmp_rets)
